@@ -4,6 +4,7 @@ def b_GeoTransformation_create_node : CR.SrcW.Builder where
   kind := .node
   tag := "geoTransformation"
   xsd := "geoTransformation"
+  path := []
   parent := ""
   attrs := []
   gattrs := []
@@ -18,7 +19,8 @@ def b_GeoTransformation_create_node_additionalTransformation : CR.SrcW.Builder w
   key := "GeoTransformationXMLNode.create_node/additionalTransformation"
   kind := .node
   tag := "additionalTransformation"
-  xsd := ""
+  xsd := "geoTransformation"
+  path := ["additionalTransformation"]
   parent := "GeoTransformationXMLNode.create_node"
   attrs := []
   gattrs := []
@@ -37,7 +39,8 @@ def b_GeoTransformation_create_node_additionalTransformation_scaling : CR.SrcW.B
   key := "GeoTransformationXMLNode.create_node/additionalTransformation/scaling"
   kind := .node
   tag := "scaling"
-  xsd := ""
+  xsd := "geoTransformation"
+  path := ["additionalTransformation", "scaling"]
   parent := "GeoTransformationXMLNode.create_node/additionalTransformation"
   attrs := []
   gattrs := []
@@ -50,7 +53,8 @@ def b_GeoTransformation_create_node_additionalTransformation_zRotation : CR.SrcW
   key := "GeoTransformationXMLNode.create_node/additionalTransformation/zRotation"
   kind := .node
   tag := "zRotation"
-  xsd := ""
+  xsd := "geoTransformation"
+  path := ["additionalTransformation", "zRotation"]
   parent := "GeoTransformationXMLNode.create_node/additionalTransformation"
   attrs := []
   gattrs := []
@@ -63,7 +67,8 @@ def b_GeoTransformation_create_node_additionalTransformation_yTranslation : CR.S
   key := "GeoTransformationXMLNode.create_node/additionalTransformation/yTranslation"
   kind := .node
   tag := "yTranslation"
-  xsd := ""
+  xsd := "geoTransformation"
+  path := ["additionalTransformation", "yTranslation"]
   parent := "GeoTransformationXMLNode.create_node/additionalTransformation"
   attrs := []
   gattrs := []
@@ -76,7 +81,8 @@ def b_GeoTransformation_create_node_additionalTransformation_xTranslation : CR.S
   key := "GeoTransformationXMLNode.create_node/additionalTransformation/xTranslation"
   kind := .node
   tag := "xTranslation"
-  xsd := ""
+  xsd := "geoTransformation"
+  path := ["additionalTransformation", "xTranslation"]
   parent := "GeoTransformationXMLNode.create_node/additionalTransformation"
   attrs := []
   gattrs := []
@@ -89,7 +95,8 @@ def b_GeoTransformation_create_node_geoReference : CR.SrcW.Builder where
   key := "GeoTransformationXMLNode.create_node/geoReference"
   kind := .node
   tag := "geoReference"
-  xsd := ""
+  xsd := "geoTransformation"
+  path := ["geoReference"]
   parent := "GeoTransformationXMLNode.create_node"
   attrs := []
   gattrs := []
